@@ -92,7 +92,6 @@ MANUAL = [
     ("C13", "inline_const_empty_list", r"text_not_executable:TranslationError:.*", "inline_const=True renders an empty 1-D constant as [], which the converter cannot type"),
     ("C13", "if_with_unused_outputs", r"text_not_executable:TranslationError:.*", "an If node whose outputs are all unused is exported as an `if` assigning dead variables, which the converter refuses"),
     ("C13", "python_constants_need_castlike_before_opset15", r"roundtrip:not_executable:.*", "inline_const=True / skip_initializers=True on a model with opset < 15: the Python constants are typed by the converter with CastLike, which opset 13/14 do not have"),
-    ("C13", "function_attribute_default_not_exported", r"text_not_executable:(ValueError:Unbound name|TypeError:Unexpected keyword.*)", "a model-local function with attribute parameters that have defaults (FunctionProto.attribute_proto): the defaults are 'not handled yet', the parameter is dropped from the signature and its uses are unbound"),
     ("C13", "skip_initializers_same_name_in_two_scopes", r"export_raises:RuntimeError@onnx_export\.py:_translate_graph_body", "skip_initializers=True on a model whose disjoint scopes (sibling If branches) hold initializers of the same name: RuntimeError 'already present in skipped_initializers' for a model inside the supported class"),
     ("C13", "loop_with_condition_break_first", r"text_not_executable:TranslationError:.*", "Loop with a condition input is exported as `for ...: if not cond: break` with the break first, which the converter refuses"),
     ("C15", "optimize_renames_constant_tensor_of_argument", r"argument_mutated:optimize", "optimize(ModelProto) mutates its argument: the TensorProto of Constant 'value' attributes is shared with the IR and renamed"),
